@@ -27,7 +27,7 @@ package tlb
 //     malformed exotic cells).
 //   - work bound: at most 9000 (thorough 100000) mutation cases per target; seeds with more than 3000 cells are mutated at
 //     the root only with 16x coarser steps.
-// Every decode runs in its own goroutine with recover, a 5 s deadline and an allocation bound of 64 MiB + 1 KiB per cell
+// Every decode runs in its own goroutine with recover, a 60 s deadline (5 s, then a 55 s confirmation wait so that a starved goroutine on a loaded machine is not reported) and an allocation bound of 64 MiB + 1 KiB per cell
 // of the tree the input unfolds to (the real OutMsgDescr of block-1 has 4806 cells that unfold to 2.9 M), through
 // tlb.Unmarshal; every 3rd case also through NewDecoder() (hasher) and cases containing library cells also through
 // NewDecoder().WithLibraryResolver.
@@ -562,6 +562,14 @@ func c08Decode(typ reflect.Type, c *boc.Cell, mode int) c08Outcome {
 	case r := <-done:
 		return c08Outcome{panicMsg: r.panicMsg, site: r.site, err: r.err, alloc: c08AllocNow() - before}
 	case <-c08Timer.C:
+	}
+	// Not back within 5 s. On a loaded machine that can be a starved goroutine; a hang is only reported when the decode
+	// is still not back after a further 55 s (the message of the sub-test says 60 s).
+	c08Timer.Reset(55 * time.Second)
+	select {
+	case r := <-done:
+		return c08Outcome{panicMsg: r.panicMsg, site: r.site, err: r.err, alloc: c08AllocNow() - before}
+	case <-c08Timer.C:
 		return c08Outcome{hung: true}
 	}
 }
@@ -625,7 +633,7 @@ func (s *c08Sweep) run(tgt c08Target, input *boc.Cell, what string, big bool, fl
 		switch {
 		case o.hung:
 			s.hangs++
-			s.fails.add("rc_hang_"+c08Sanitize(tgt.name), "%s into %s did not return within 5 s: %s\n      input: %s", modeName, tgt.name, what, c08Describe(input))
+			s.fails.add("rc_hang_"+c08Sanitize(tgt.name), "%s into %s did not return within 60 s: %s\n      input: %s", modeName, tgt.name, what, c08Describe(input))
 		case o.panicMsg != "":
 			cause := "rc_panic_" + c08Sanitize(strings.SplitN(o.site, " @ ", 2)[0])
 			if s.fails.wants(cause) {
